@@ -83,6 +83,7 @@ package keeper
 //@ ensures [no-deps] E == old(E) && X == old(X)
 //@ ensures [keep-old] result == nil && had.1 && old(k.GetConsumerPhase(ctx, c)) == types.CONSUMER_PHASE_LAUNCHED && oldAddr != newAddr ==> k.GetValidatorByConsumerAddr(ctx, c, oldAddr) == old(k.GetValidatorByConsumerAddr(ctx, c, oldAddr))
 //@ ensures [prune-time] result == nil && had.1 && old(k.GetConsumerPhase(ctx, c)) == types.CONSUMER_PHASE_LAUNCHED ==> len(k.GetConsumerAddrsToPrune(ctx, c, now + ub.0).Addresses) == len(old(k.GetConsumerAddrsToPrune(ctx, c, now + ub.0)).Addresses) + 1 && k.GetConsumerAddrsToPrune(ctx, c, now + ub.0).Addresses[len(old(k.GetConsumerAddrsToPrune(ctx, c, now + ub.0)).Addresses)] == oldAddr.ToSdkConsAddr()
+//@ ensures [unbonding-known] result == nil && had.1 && old(k.GetConsumerPhase(ctx, c)) == types.CONSUMER_PHASE_LAUNCHED ==> ub.1 == nil
 //@ ensures [drop-old] result == nil && had.1 && old(k.GetConsumerPhase(ctx, c)) != types.CONSUMER_PHASE_LAUNCHED && oldAddr != newAddr ==> !k.GetValidatorByConsumerAddr(ctx, c, oldAddr).1
 //@ ensures [frame] forall key bytes :: key != types.ConsumerValidatorsKey(c, p) && key != types.ValidatorsByConsumerAddrKey(c, newAddr) && key != types.ValidatorsByConsumerAddrKey(c, oldAddr) && key != types.ConsumerAddrsToPruneV2Key(c, now + ub.0) ==> S[key] == old(S[key])
 
@@ -697,8 +698,23 @@ package keeper
 
 // ---------------------------------------------------------------- C16 / C13: reward allocation
 
+//@ const FamAllowDenoms = fam(types.ConsumerIdToAllowlistedRewardDenomKey(""))
+//@ const FamRewardDenoms = fam(types.ConsumerRewardDenomsKey(""))
+
+//@ func Keeper.GetAllConsumerRewardDenoms pure
+//@ ensures [frame] S == old(S) && E == old(E) && X == old(X)
+
 //@ func Keeper.AllocateTokens
-//@ loop 1 invariant [registered-denoms-fixed] allConsumerRewardDenoms == entry(allConsumerRewardDenoms)
+//@ let reg0 := old(k.GetAllConsumerRewardDenoms(ctx))
+//@ precall GetConsumerRewardsAllocationByDenom [fresh-cache] sameworld($GetConsumerRewardsAllocationByDenom.ctx, ctx)
+//@ precall GetConsumerRewardsAllocationByDenom [denom-allowed] (exists j int :: 0 <= j && j < len(reg0) && reg0[j] == $GetConsumerRewardsAllocationByDenom.denom) || (exists j int :: 0 <= j && j < len(k.GetAllowlistedRewardDenoms(ctx, $GetConsumerRewardsAllocationByDenom.consumerId).0) && k.GetAllowlistedRewardDenoms(ctx, $GetConsumerRewardsAllocationByDenom.consumerId).0[j] == $GetConsumerRewardsAllocationByDenom.denom)
+//@ precall AllocateConsumerRewards [same-consumer] $AllocateConsumerRewards.consumerId == consumerId && sameworld($AllocateConsumerRewards.ctx, $GetConsumerRewardsAllocationByDenom.ctx)
+//@ loop 1 invariant [registered-denoms-fixed] allConsumerRewardDenoms == reg0
+//@ loop 1 invariant [lists-kept] forall key bytes :: fam(key) == FamAllowDenoms ==> S[key] == old(S[key])
+//@ loop 2 invariant [registered-denoms-fixed] allConsumerRewardDenoms == reg0
+//@ loop 2 invariant [lists-kept] forall key bytes :: fam(key) == FamAllowDenoms ==> S[key] == old(S[key])
+//@ loop 2 invariant [denoms-of-this-consumer] len(allAllowlistedDenoms) == len(reg0) + len(k.GetAllowlistedRewardDenoms(ctx, consumerId).0) && (forall j int :: 0 <= j && j < len(reg0) ==> allAllowlistedDenoms[j] == reg0[j]) && (forall j int :: 0 <= j && j < len(k.GetAllowlistedRewardDenoms(ctx, consumerId).0) ==> allAllowlistedDenoms[len(reg0) + j] == k.GetAllowlistedRewardDenoms(ctx, consumerId).0[j])
+//@ loop 2 step [failed-allocation-rolled-back] $AllocateConsumerRewards.called && $AllocateConsumerRewards.ret1 != nil ==> S == prev(S) && E == prev(E) && X == prev(X)
 
 // ---------------------------------------------------------------- C19: block processing keeps going; failed operations are rolled back
 
@@ -734,3 +750,11 @@ package keeper
 //@ precall SendVSCPacketsToChain [launched-only] k.GetConsumerPhase(ctx, $SendVSCPacketsToChain.consumerId) == providertypes.CONSUMER_PHASE_LAUNCHED
 //@ precall SendVSCPacketsToChain [own-channel] k.GetConsumerIdToChannelId(ctx, $SendVSCPacketsToChain.consumerId).1 && k.GetConsumerIdToChannelId(ctx, $SendVSCPacketsToChain.consumerId).0 == $SendVSCPacketsToChain.channelId
 //@ ensures [never-fails] result == nil
+
+//@ func Keeper.AllocateTokensToConsumerValidators
+//@ loop 1 invariant [idx] 0 <= _i && _i <= len(consumerVals)
+//@ loop 1 invariant [store-kept] S == old(S)
+//@ loop 1 step [eligible-paid] k.IsEligibleForConsumerRewards(ctx, consumerVal.JoinHeight) ==> E != prev(E)
+//@ loop 1 step [ineligible-skipped] !k.IsEligibleForConsumerRewards(ctx, consumerVal.JoinHeight) ==> E == prev(E) && X == prev(X)
+//@ ensures [store-kept] S == old(S)
+//@ ensures [nothing-to-share] tokens.Empty() ==> err == nil && E == old(E)
